@@ -1,127 +1,275 @@
 import SFV.Proofs.RegisterFock
-/-! `state(modes=[…])` with an explicit selection (Fock, Gaussian): the returned modes are the requested positions of
-the full state — every returned mode carries the label and the data of one and the same live index. Core Lean only. -/
+/-! `state(modes=[…])` with an explicit selection: on all three back ends `modes` are SUBSYSTEM INDICES.  For distinct
+live indices the result pairs every requested index with the data of that subsystem (requested order on Fock and
+Gaussian, ascending order on bosonic); a deleted or unknown index is rejected.  Core Lean only. -/
 set_option linter.unusedSectionVars false
 set_option linter.unusedSimpArgs false
 namespace SFV.Reg
 section Modes
 variable {D : Type} [DataSem D]
 
-theorem getAll_zip {α β : Type} (l1 : List α) (l2 : List β) : ∀ (ms : List Nat) (a : List α) (b : List β),
-    getAll l1 ms = .ok a → getAll l2 ms = .ok b → getAll (l1.zip l2) ms = .ok (a.zip b) := by
-  intro ms
-  induction ms with
-  | nil => intro a b h1 h2; simp only [getAll] at h1 h2; cases h1; cases h2; rfl
+/-- every requested subsystem index paired with what that subsystem carries -/
+def Rows.pairs (a : Rows D) (is : List Nat) : List (Nat × D) :=
+  is.filterMap (fun i => match a[i]? with | some (some d) => some (i, d) | _ => none)
+
+/-- for live indices `pairs` has one entry per request: entry `k` is (`is[k]`, the datum of subsystem `is[k]`) -/
+theorem Rows.pairs_get (a : Rows D) : ∀ (is : List Nat), is.all a.liveAt = true → ∀ (k i : Nat), is[k]? = some i →
+    ∃ d, a[i]? = some (some d) ∧ (Rows.pairs a is)[k]? = some (i, d) := by
+  intro is
+  induction is with
+  | nil => intro _ k i hk; simp at hk
   | cons m ms ih =>
-    intro a b h1 h2
-    unfold getAll at h1 h2 ⊢
-    cases hx : l1[m]? with
-    | none => simp [hx] at h1
-    | some x =>
-      cases hy : l2[m]? with
-      | none => simp [hy] at h2
-      | some y =>
-        simp only [hx, hy] at h1 h2
-        cases ha : getAll l1 ms with
-        | error e => simp [ha] at h1
-        | ok as =>
-          cases hb : getAll l2 ms with
-          | error e => simp [hb] at h2
-          | ok bs =>
-            simp only [ha, hb] at h1 h2
-            cases h1; cases h2
-            have hz : (l1.zip l2)[m]? = some (x, y) := by simp [List.getElem?_zip_eq_some, hx, hy]
-            simp only [hz, ih as bs ha hb, List.zip_cons_cons]
+    intro hl k i hk
+    simp only [List.all_cons, Bool.and_eq_true] at hl
+    have hm := hl.1
+    unfold Rows.liveAt at hm
+    cases ha : a[m]? with
+    | none => simp [ha] at hm
+    | some o =>
+      cases o with
+      | none => simp [ha] at hm
+      | some d =>
+        cases k with
+        | zero =>
+          simp at hk; subst hk
+          exact ⟨d, ha, by simp [Rows.pairs, ha]⟩
+        | succ k =>
+          obtain ⟨d', h1, h2⟩ := ih hl.2 k i (by simpa using hk)
+          exact ⟨d', h1, by simpa [Rows.pairs, ha] using h2⟩
 
-/-- **Fock `state(modes)`**: the requested positions of the full state, in the requested order -/
-theorem Fock.stateModes_exact (s : Fock D) (h : FockInv s) (modes : List Nat) (out : List (Nat × D))
-    (hs : s.stateModes modes = .ok out) : getAll (Rows.state 0 s.abs) modes = .ok out := by
-  have hst : Rows.state 0 s.abs = s.getModes.zip s.axes := by
-    have h1 := Fock.stateNone_exact s h
-    rw [Fock.stateNone_labels s h.len] at h1
-    exact (Except.ok.inj h1).symm
-  unfold Fock.stateModes at hs
-  split at hs
-  · cases hs
-  · split at hs
-    · cases hs
-    · split at hs
-      · cases hs
-      · rename_i data hd
-        split at hs
-        · cases hs
-        · rename_i labels hl
-          cases hs
-          rw [hst]
-          exact getAll_zip _ _ modes labels data hl hd
-
-theorem getAll_ok_get {α : Type} (l : List α) : ∀ (idx : List Nat) (sel : List α), getAll l idx = .ok sel →
-    ∀ (j i : Nat), idx[j]? = some i → sel[j]? = l[i]? ∧ (l[i]?).isSome := by
-  intro idx
-  induction idx with
-  | nil => intro sel _ j i hj; simp at hj
-  | cons a as ih =>
-    intro sel h j i hj
-    unfold getAll at h
-    cases hx : l[a]? with
-    | none => simp [hx] at h
-    | some x =>
-      simp only [hx] at h
-      cases hr : getAll l as with
-      | error e => simp [hr] at h
-      | ok xs =>
-        simp only [hr] at h
-        cases h
+theorem mem_liveFrom : ∀ (l : Rows D) (c i : Nat), i ∈ liveFrom c l ↔ ∃ j, i = c + j ∧ Rows.liveAt l j = true := by
+  intro l
+  induction l with
+  | nil => intro c i; simp [liveFrom, Rows.liveAt]
+  | cons x xs ih =>
+    intro c i
+    cases x with
+    | none =>
+      simp only [liveFrom, ih]
+      constructor
+      · rintro ⟨j, rfl, hj⟩; exact ⟨j + 1, by omega, by simpa [Rows.liveAt] using hj⟩
+      · rintro ⟨j, rfl, hj⟩
         cases j with
-        | zero => simp at hj; subst hj; simp [hx]
-        | succ j => exact ih xs hr j i (by simpa using hj)
+        | zero => simp [Rows.liveAt] at hj
+        | succ j => exact ⟨j, by omega, by simpa [Rows.liveAt] using hj⟩
+    | some d =>
+      simp only [liveFrom, List.mem_cons, ih]
+      constructor
+      · rintro (rfl | ⟨j, rfl, hj⟩)
+        · exact ⟨0, rfl, by simp [Rows.liveAt]⟩
+        · exact ⟨j + 1, by omega, by simpa [Rows.liveAt] using hj⟩
+      · rintro ⟨j, rfl, hj⟩
+        cases j with
+        | zero => exact Or.inl rfl
+        | succ j => exact Or.inr ⟨j, by omega, by simpa [Rows.liveAt] using hj⟩
 
-theorem getAll_comp {α : Type} (l : List α) (idx : List Nat) (sel : List α) (hsel : getAll l idx = .ok sel) :
-    ∀ (ms idx' : List Nat), getAll idx ms = .ok idx' → getAll l idx' = getAll sel ms := by
+theorem mem_live_iff (a : Rows D) (i : Nat) : i ∈ Rows.live a ↔ Rows.liveAt a i = true := by
+  unfold Rows.live
+  rw [mem_liveFrom]
+  constructor
+  · rintro ⟨j, rfl, hj⟩; simpa using hj
+  · intro h; exact ⟨i, by omega, h⟩
+
+/-! phase-space back ends -/
+theorem PS.active_check (s : PS D) (h : PSInv s) (modes : List Nat) :
+    (modes.any (fun i => !s.getModes.contains i)) = !(modes.all (Rows.liveAt s.abs)) := by
+  rw [PS.getModes_live s h]
+  induction modes with
+  | nil => rfl
+  | cons m ms ih =>
+    simp only [List.any_cons, List.all_cons, ih, Bool.not_and]
+    congr 1
+    rw [Bool.eq_iff_iff]
+    simp [mem_live_iff]
+
+theorem PS.rows_pairs (s : PS D) (h : PSInv s) : ∀ (ms : List Nat), ms.all (Rows.liveAt s.abs) = true →
+    ∃ data, getAll s.rows ms = .ok data ∧ ms.zip data = Rows.pairs s.abs ms := by
   intro ms
   induction ms with
-  | nil => intro idx' h; simp only [getAll] at h; cases h; rfl
+  | nil => intro _; exact ⟨[], rfl, rfl⟩
   | cons m ms ih =>
-    intro idx' h
-    unfold getAll at h
-    cases hx : idx[m]? with
-    | none => simp [hx] at h
-    | some i =>
-      simp only [hx] at h
-      cases hr : getAll idx ms with
-      | error e => simp [hr] at h
-      | ok is =>
-        simp only [hr] at h
-        cases h
-        obtain ⟨h1, h2⟩ := getAll_ok_get l idx sel hsel m i hx
-        have := ih is hr
-        cases hl : l[i]? with
-        | none => simp [hl] at h2
-        | some v =>
-          rw [hl] at h1
-          simp only [getAll, hl, h1, this]
+    intro hl
+    simp only [List.all_cons, Bool.and_eq_true] at hl
+    obtain ⟨_, d, hr, hab⟩ := liveAt_active s h m hl.1
+    obtain ⟨data, h1, h2⟩ := ih hl.2
+    refine ⟨d :: data, by simp [getAll, hr, h1], ?_⟩
+    simp only [List.zip_cons_cons, h2, Rows.pairs, List.filterMap_cons, hab]
 
-/-- **Gaussian `state(modes)`** (after the fix): the requested positions of the full state, in the requested order —
-labels and data come from the same live index -/
-theorem PS.stateModesG_exact (s : PS D) (h : PSInv s) (modes : List Nat) (out : List (Nat × D))
-    (hs : s.stateModesG modes = .ok out) : getAll (Rows.state 0 s.abs) modes = .ok out := by
-  have hg : s.getModes = liveFrom 0 s.active :=
-    getModes_liveFrom s.active 0 (fun i j hij => by have := h.own i j hij; omega)
-  have hsuf := getAll_live_suffix s.active s.rows [] (by rw [h.la, h.lr])
-  simp only [List.length_nil, List.nil_append] at hsuf
-  have hst : Rows.state 0 s.abs = s.getModes.zip (pick s.active s.rows) := by
-    rw [hg, hsuf.2]; rfl
-  unfold PS.stateModesG at hs
-  split at hs
-  · cases hs
-  · rename_i labels hl
-    split at hs
-    · cases hs
-    · rename_i data hd
-      cases hs
-      rw [hst]
-      have hcomp := getAll_comp s.rows s.getModes (pick s.active s.rows) (by rw [hg]; exact hsuf.1) modes labels hl
-      rw [hd] at hcomp
-      exact getAll_zip _ _ modes labels data hl hcomp.symm
+/-- **Gaussian `state(modes)`**: distinct-or-not live indices in any order ⇒ entry `k` is subsystem `modes[k]` -/
+theorem PS.stateModesG_ok (s : PS D) (h : PSInv s) (modes : List Nat) (hl : modes.all (Rows.liveAt s.abs) = true) :
+    s.stateModesG modes = .ok (Rows.pairs s.abs modes) := by
+  obtain ⟨data, h1, h2⟩ := PS.rows_pairs s h modes hl
+  unfold PS.stateModesG
+  rw [PS.active_check s h, hl]
+  simp [h1, h2]
+
+theorem PS.stateModesG_rejects (s : PS D) (h : PSInv s) (modes : List Nat)
+    (hb : ∃ i ∈ modes, Rows.liveAt s.abs i = false) : s.stateModesG modes = .error .value := by
+  have : modes.all (Rows.liveAt s.abs) = false := by
+    obtain ⟨i, hi, hd⟩ := hb
+    cases hx : modes.all (Rows.liveAt s.abs) with
+    | false => rfl
+    | true => rw [(List.all_eq_true.1 hx) i hi] at hd; cases hd
+  unfold PS.stateModesG
+  rw [PS.active_check s h, this]
+  simp
+
+theorem mem_insertAsc (m : Nat) : ∀ (l : List Nat) (x : Nat), x ∈ PS.insertAsc m l ↔ x = m ∨ x ∈ l := by
+  intro l
+  induction l with
+  | nil => intro x; simp [PS.insertAsc]
+  | cons a as ih =>
+    intro x
+    simp only [PS.insertAsc]
+    split
+    · simp
+    · simp only [List.mem_cons, ih]
+      constructor
+      · rintro (h | h | h) <;> simp [h]
+      · rintro (h | h | h) <;> simp [h]
+
+theorem mem_sortAsc : ∀ (l : List Nat) (x : Nat), x ∈ PS.sortAsc l ↔ x ∈ l := by
+  intro l
+  induction l with
+  | nil => intro x; simp [PS.sortAsc]
+  | cons a as ih =>
+    intro x
+    have : PS.sortAsc (a :: as) = PS.insertAsc a (PS.sortAsc as) := rfl
+    rw [this, mem_insertAsc, ih]; simp
+
+/-- **bosonic `state(modes)`**: the same pairs, in ascending index order -/
+theorem PS.stateModesB_ok (s : PS D) (h : PSInv s) (modes : List Nat) (hl : modes.all (Rows.liveAt s.abs) = true) :
+    s.stateModesB modes = .ok (Rows.pairs s.abs (PS.sortAsc modes)) := by
+  have hl' : (PS.sortAsc modes).all (Rows.liveAt s.abs) = true := by
+    rw [List.all_eq_true] at hl ⊢
+    intro i hi; exact hl i ((mem_sortAsc modes i).1 hi)
+  obtain ⟨data, h1, h2⟩ := PS.rows_pairs s h _ hl'
+  unfold PS.stateModesB
+  rw [PS.active_check s h, hl]
+  simp [h1, h2]
+
+theorem PS.stateModesB_rejects (s : PS D) (h : PSInv s) (modes : List Nat)
+    (hb : ∃ i ∈ modes, Rows.liveAt s.abs i = false) : s.stateModesB modes = .error .value := by
+  have : modes.all (Rows.liveAt s.abs) = false := by
+    obtain ⟨i, hi, hd⟩ := hb
+    cases hx : modes.all (Rows.liveAt s.abs) with
+    | false => rfl
+    | true => rw [(List.all_eq_true.1 hx) i hi] at hd; cases hd
+  unfold PS.stateModesB
+  rw [PS.active_check s h, this]
+  simp
+
+/-! Fock back end -/
+theorem numbered_liveFrom_get : ∀ (l : List (Option Nat)) (c c0 i x : Nat), Numbered c l → l[i]? = some (some x) →
+    (liveFrom c0 l)[x - c]? = some (c0 + i) := by
+  intro l
+  induction l with
+  | nil => intro c c0 i x _ h; simp at h
+  | cons a as ih =>
+    intro c c0 i x hn h
+    cases a with
+    | none =>
+      cases i with
+      | zero => simp at h
+      | succ i =>
+        have := ih c (c0 + 1) i x hn (by simpa using h)
+        simp only [liveFrom, this]; congr 1; omega
+    | some y =>
+      obtain ⟨rfl, hn'⟩ := hn
+      cases i with
+      | zero => simp at h; subst h; simp [liveFrom]
+      | succ i =>
+        have hx := numbered_ge as (y + 1) i x hn' (by simpa using h)
+        have := ih (y + 1) (c0 + 1) i x hn' (by simpa using h)
+        have e : x - y = (x - (y + 1)) + 1 := by omega
+        simp only [liveFrom, e, List.getElem?_cons_succ, this]; congr 1; omega
+
+theorem axesOf_mem (s : Fock D) (ms : List Nat) (x : Nat) :
+    x ∈ axesOf s ms ↔ ∃ m ∈ ms, s.mm.map[m]? = some (some x) := by
+  simp only [axesOf, List.mem_filterMap]
+  constructor
+  · rintro ⟨m, hm, hj⟩
+    refine ⟨m, hm, ?_⟩
+    cases hq : s.mm.map[m]? with
+    | none => simp [hq] at hj
+    | some o => cases o <;> simp_all
+  · rintro ⟨m, hm, hq⟩; exact ⟨m, hm, by simp [hq]⟩
+
+theorem axesOf_nodup (s : Fock D) (h : FockInv s) : ∀ (ms : List Nat), ms.all (Rows.liveAt s.abs) = true → ms.Nodup →
+    (axesOf s ms).Nodup ∧ (axesOf s ms).length = ms.length := by
+  intro ms
+  induction ms with
+  | nil => intro _ _; simp [axesOf]
+  | cons m ms ih =>
+    intro hl hd
+    simp only [List.all_cons, Bool.and_eq_true] at hl
+    obtain ⟨hni, hnd⟩ := List.nodup_cons.1 hd
+    obtain ⟨x, hx⟩ := (Fock.live_iff s h m).1 hl.1
+    have hax : axesOf s (m :: ms) = x :: axesOf s ms := by simp [axesOf, hx]
+    obtain ⟨h1, h2⟩ := ih hl.2 hnd
+    rw [hax]
+    refine ⟨List.nodup_cons.2 ⟨?_, h1⟩, by simp [h2]⟩
+    intro hmem
+    obtain ⟨m', hm', hq⟩ := (axesOf_mem s ms x).1 hmem
+    have := numbered_inj s.mm.map 0 m m' x h.num hx hq
+    exact hni (this ▸ hm')
+
+theorem Fock.axes_pairs (s : Fock D) (h : FockInv s) : ∀ (ms : List Nat), ms.all (Rows.liveAt s.abs) = true →
+    ∃ data labels, getAll s.axes (axesOf s ms) = .ok data ∧ getAll s.getModes (axesOf s ms) = .ok labels ∧
+      labels.zip data = Rows.pairs s.abs ms := by
+  intro ms
+  induction ms with
+  | nil => intro _; exact ⟨[], [], rfl, rfl, rfl⟩
+  | cons m ms ih =>
+    intro hl
+    simp only [List.all_cons, Bool.and_eq_true] at hl
+    obtain ⟨x, hx⟩ := (Fock.live_iff s h m).1 hl.1
+    obtain ⟨hlt, hab⟩ := Fock.live_axis s h m x hx
+    have hgx : s.axes[x]? = some s.axes[x] := List.getElem?_eq_getElem hlt
+    have hlab : s.getModes[x]? = some m := by
+      have := numbered_liveFrom_get s.mm.map 0 0 m x h.num hx
+      simpa [Fock.getModes] using this
+    have hax : axesOf s (m :: ms) = x :: axesOf s ms := by simp [axesOf, hx]
+    obtain ⟨data, labels, h1, h2, h3⟩ := ih hl.2
+    refine ⟨s.axes[x] :: data, m :: labels, by simp [hax, getAll, hgx, h1], by simp [hax, getAll, hlab, h2], ?_⟩
+    simp only [List.zip_cons_cons, h3, Rows.pairs, List.filterMap_cons, hab, hgx]
+
+/-- **Fock `state(modes)`**: distinct live indices in any order ⇒ entry `k` is subsystem `modes[k]` -/
+theorem Fock.stateModes_ok (s : Fock D) (h : FockInv s) (modes : List Nat) (hne : modes ≠ [])
+    (hl : modes.all (Rows.liveAt s.abs) = true) (hd : modes.Nodup) :
+    s.stateModes modes = .ok (Rows.pairs s.abs modes) := by
+  obtain ⟨data, labels, h1, h2, h3⟩ := Fock.axes_pairs s h modes hl
+  obtain ⟨hnd, hlen⟩ := axesOf_nodup s h modes hl hd
+  have hb : ∀ x ∈ axesOf s modes, x < s.axes.length := by
+    intro x hx
+    obtain ⟨m, _, hq⟩ := (axesOf_mem s modes x).1 hx
+    exact (Fock.live_axis s h m x hq).1
+  have hle := nodup_bounded_length _ _ hnd hb
+  have hgt : ¬ (axesOf s modes).length > s.axes.length := by omega
+  simp [Fock.stateModes, (hasDup_false_iff modes).2 hd, Fock.remapModes_live s h modes hne hl hd, hgt, h1, h2, h3]
+
+theorem Fock.stateModes_rejects (s : Fock D) (h : FockInv s) (modes : List Nat)
+    (hb : ∃ i ∈ modes, Rows.liveAt s.abs i = false) : ∃ e, s.stateModes modes = .error e := by
+  unfold Fock.stateModes
+  split
+  · exact ⟨_, rfl⟩
+  · obtain ⟨e, he⟩ := Fock.remapModes_dead s h modes hb
+    simp only [he]; exact ⟨e, rfl⟩
+
+/-- specification of `state(modes)` shared by the three back ends (`ord`: order in which the modes come back) -/
+def StateModesSpec {B : Type} (abs : B → Rows D) (Inv : B → Prop) (sm : B → List Nat → SFV.Reg.R (List (Nat × D)))
+    (ord : List Nat → List Nat) : Prop :=
+  ∀ (b : B) (modes : List Nat), Inv b →
+    (modes ≠ [] → modes.Nodup → modes.all (Rows.liveAt (abs b)) = true →
+      sm b modes = .ok (Rows.pairs (abs b) (ord modes))) ∧
+    ((∃ i ∈ modes, Rows.liveAt (abs b) i = false) → ∃ e, sm b modes = .error e)
+
+theorem stateModes_spec_all :
+    StateModesSpec (Fock.abs (D := D)) FockInv Fock.stateModes id ∧
+    StateModesSpec (PS.abs (D := D)) PSInv PS.stateModesG id ∧
+    StateModesSpec (PS.abs (D := D)) PSInv PS.stateModesB PS.sortAsc :=
+  ⟨fun b modes hb => ⟨fun hne hd hl => Fock.stateModes_ok b hb modes hne hl hd, Fock.stateModes_rejects b hb modes⟩,
+   fun b modes hb => ⟨fun _ _ hl => PS.stateModesG_ok b hb modes hl, fun h => ⟨_, PS.stateModesG_rejects b hb modes h⟩⟩,
+   fun b modes hb => ⟨fun _ _ hl => PS.stateModesB_ok b hb modes hl, fun h => ⟨_, PS.stateModesB_rejects b hb modes h⟩⟩⟩
 end Modes
 end SFV.Reg
